@@ -73,30 +73,27 @@ Definition list_random_access (v : vam) (lr : lref) : bool :=
   | None => true
   end.
 
-(* Allocator.BeginDefragmentation + DefragmentationContext.init *)
+(* Allocator.BeginDefragmentation: DefragmentationInfo.validate first (a refused request changes nothing),
+   then the linear-pool refusal, initForPool / initForAllocator and DefragmentationContext.init *)
 Definition defrag_begin (v : vam) (flags : Z) (pool : option Z) (maxBytes maxAllocs : Z) : vam * out dfrun :=
-  if match pool with Some uid => list_is_linear v (LPool uid) | None => false end then (v, ER VK_NOFEATURE)
+  let algo := Z.land flags 3 in
+  if (maxBytes <? 0) || (maxAllocs <? 0) then (v, ER VK_UNKNOWN)
+  else if algo =? 3 then (v, ER VK_UNKNOWN)
+  else if match pool with Some uid => list_is_linear v (LPool uid) | None => false end then (v, ER VK_NOFEATURE)
   else
     let lrs := match pool with
                | Some uid => [LPool uid]
                | None => default_lrefs v (length (c_types c)) 0
                end in
     let v1 := fold_left prepare_list lrs v in
-    if (maxBytes <? 0) || (maxAllocs <? 0) then (v1, ER VK_UNKNOWN)
+    let mb := if maxBytes =? 0 then MAXINT else maxBytes in
+    let ma := if maxAllocs =? 0 then MAXINT else maxAllocs in
+    (* MetadataDefragContext.Init: a block without random access is refused (after the lists were prepared) *)
+    if negb (forallb (list_random_access v1) lrs) then (v1, ER VK_UNKNOWN)
     else
-      let mb := if maxBytes =? 0 then MAXINT else maxBytes in
-      let ma := if maxAllocs =? 0 then MAXINT else maxAllocs in
-      let algo := Z.land flags 3 in
-      match lrs with
-      | [] => (v1, OK (mkDfrun [] 0 mb ma (Pass.pass_init 0 0) Pass.ps_zero))
-      | _ =>
-        if algo =? 3 then (v1, ER VK_UNKNOWN)
-        else if negb (forallb (list_random_access v1) lrs) then (v1, ER VK_UNKNOWN)
-        else
-          let a := if algo =? 1 then 1 else 2 in
-          (v1, OK (mkDfrun (map (fun lr => mkDfctx lr (Defrag.mkC a [] 0)) lrs) 0 mb ma
-                           (Pass.pass_init 0 0) Pass.ps_zero))
-      end.
+      let a := if algo =? 1 then 1 else 2 in
+      (v1, OK (mkDfrun (map (fun lr => mkDfctx lr (Defrag.mkC a [] 0)) lrs) 0 mb ma
+                       (Pass.pass_init 0 0) Pass.ps_zero)).
 
 (* ---------------------------------------------------------------- projection to Defrag.v *)
 
